@@ -50,6 +50,11 @@ Definition safe_encode (w : world) (text : pval) (incoming : option str) (encodi
   | POther _ => CExn ETypeError
   end.
 
+(* what the transcoding branch of safe_encode computes (whether or not it is taken) *)
+Definition transcode (w : world) (b : bytes) (incoming : option str) (encoding errors : str) : cres pval :=
+  cbind (safe_decode w (PBytes b) (Some (py_lower (resolve_incoming w incoming))) errors)
+        (fun t => cmap PBytes (str_encode w t (py_lower encoding) errors)).
+
 Definition to_utf8 (w : world) (text : pval) : cres pval :=
   match text with
   | PBytes b => COk (PBytes b)
